@@ -410,7 +410,12 @@ class Gen:
         body = Scope(inner)
         for _ in range(n):
             self.stmt(body, budget - 1 if self.chance(0.4) else budget // 2, False)
-        if self.chance(0.5):
+        # a function may produce no value (body empty or ending in a let): calling it yields null
+        void = self.chance(0.15)
+        if void:
+            if self.chance(0.6):
+                self.emit(f"let t_{name} = {self.expr(body, 'I', 1)};")
+        elif self.chance(0.5):
             self.emit(f"return {self.expr(body, 'I', 1)};")
         else:
             self.emit(f"{self.expr(body, 'I', 1)}")
@@ -418,10 +423,14 @@ class Gen:
         self.fn_depth -= 1
         self.loop_labels = saved
         self.emit("}" if style < 0.5 else "};")
-        scope.vars[name] = ("FN", ar, "I")
+        scope.vars[name] = ("FN", ar, "N" if void else "I")
         if self.chance(0.7):
             args = ", ".join(self.expr(scope, "I", 2) for _ in range(ar if self.chance(0.93) else ar + 1))
-            self.emit(f"push(obs, {name}({args}));")
+            if void:
+                # the (null) result used positionally: as an array element, an operand, an argument
+                self.emit(self.pick([f"push(obs, [{name}({args}), 1]);", f"push(obs, null == {name}({args}));", f"push(obs, {name}({args}));", f"{name}({args});"]))
+            else:
+                self.emit(f"push(obs, {name}({args}));")
 
     # ------------------------------------------------------------ program
     def program(self):
